@@ -142,6 +142,7 @@ pub fn run(ctx: &Ctx) -> Outcome {
             one_history(ctx, &mut out, &mut rng, idx).await;
         }
     });
+    crate::checks::extreme::lane(ctx, &mut out, "C07");
     out
 }
 
